@@ -47,3 +47,20 @@ Theorem C15_handshake_timer : forall evs,
   ph s = Handshaking -> hs_timer s = true /\ tstep s TTimer = ({| ph := Dead; hs_timer := false; inner := inner s |}, [TClose]).
 Proof. exact Tls_proofs.handshake_timer. Qed.
 Print Assumptions C15_handshake_timer.
+
+(* ---- tie to the code (server/server.py start_server: TLS context selection and listeners): theorems of coq/Equiv/EquivWiring.v (their statements are there; several live in Sections
+   over the configuration, so they are cited by type), re-checked against coq/Gen/WiringGen.v regenerated from /repo's
+   working tree; see DESIGN.md 11.11 ---- *)
+From NV Require Equiv.EquivWiring.
+Theorem C20_code_wiring_context_choice : ltac:(let t := type of @EquivWiring.context_choice in exact t).
+Proof. exact (@EquivWiring.context_choice). Qed.
+Print Assumptions C20_code_wiring_context_choice.
+
+Theorem C20_code_wiring_listener_protection : ltac:(let t := type of @EquivWiring.listener_protection in exact t).
+Proof. exact (@EquivWiring.listener_protection). Qed.
+Print Assumptions C20_code_wiring_listener_protection.
+
+Theorem C20_code_wiring_no_plaintext_listener : ltac:(let t := type of @EquivWiring.no_plaintext_listener in exact t).
+Proof. exact (@EquivWiring.no_plaintext_listener). Qed.
+Print Assumptions C20_code_wiring_no_plaintext_listener.
+
